@@ -424,11 +424,11 @@ func runDKG(t *testing.T, rc *RunCtx) {
 		}
 	}
 	out := c.spawnGenerate(initiator, "client1", path, uint32(th), uint32(n))
-	// A quarter of the valid multi-party runs start a second generation (another name, another initiator) at the
+	// A third of the valid multi-party runs start a second generation (another name, another initiator) at the
 	// same time; their messages interleave under the scheduler and both must end as consistent keys.
 	var outB *dkgOutcome
 	pathB := "Wallet 3/genB"
-	if valid && n > 1 && tamper == "" && ch.Pick(4, 0) == 3 && rc.Param("noconc", "") == "" {
+	if valid && n > 1 && tamper == "" && ch.Pick(3, 0) == 2 && rc.Param("noconc", "") == "" {
 		outB = c.spawnGenerate(c.Nodes[ch.Pick(len(c.Nodes), 0)], "client2", pathB, uint32(th), uint32(n))
 		rc.Stats.Inc("concurrent_generations", 1)
 	}
